@@ -610,6 +610,19 @@ func init() {
 			{Name: "marshal-go-values", Count: n(30000, 2400000), Run: func(c *core.Ctx, idx int) {
 				judgeMarshal(c, genGo(c.R, 3), "dynamic")
 			}},
+			{Name: "transforms-of-deep-texts", Exhaustive: true, Count: func(core.Tier) int { return len(deepDepths) * 2 }, Run: func(c *core.Ctx, idx int) {
+				d := deepDepths[idx/2]
+				if d > 2600 {
+					return // (indented output grows with depth x depth)
+				}
+				t := deepWrap(d, `{"k":[1,{"m":"a<b"}],"n":null,"e":{},"l":[]}`)
+				if idx%2 == 1 {
+					t = strings.Repeat("[", d) + ` 1 , {"x" : [ ] } ` + strings.Repeat("]", d)
+				}
+				judgeTransforms(c, t)
+				judgeTransforms(c, t)
+				c.Count("deep-transforms:cases")
+			}},
 			{Name: "deep-values-with-interior-pointers", Exhaustive: true, Count: func(core.Tier) int { return deepValueCount }, Run: func(c *core.Ctx, idx int) {
 				v, what := deepValue(idx)
 				judgeMarshal(c, v, "deep: "+what)
